@@ -161,12 +161,39 @@ type Op struct {
 	K string `json:"k"`           // method
 	X string `json:"x,omitempty"` // target / argument (fixture name, "nb" = the bucket created by createBucket, ...)
 	G []int  `json:"g,omitempty"` // createToken: indexes into grantBasis
+	F *Filt  `json:"f,omitempty"` // find calls of family C: the whole filter, field by field (X is unused then)
+}
+
+// Filt is a find filter in symbolic form: every field is the name of a fixture entity ("" = field absent). Which
+// fields apply depends on the call: buckets ID/Name/Org/OrgName, orgs ID/Name/User, users ID/Name,
+// tokens ID/Token/User/UserName/Org/OrgName.
+type Filt struct {
+	ID       string `json:"id,omitempty"`
+	Name     string `json:"name,omitempty"`
+	Org      string `json:"org,omitempty"`     // organization id
+	OrgName  string `json:"orgName,omitempty"` // organization name
+	User     string `json:"user,omitempty"`    // user id
+	UserName string `json:"userName,omitempty"`
+	Token    string `json:"token,omitempty"` // token string of the named fixture token
+}
+
+func (f Filt) String() string {
+	var l []string
+	for _, kv := range [][2]string{{"id", f.ID}, {"name", f.Name}, {"org", f.Org}, {"orgName", f.OrgName}, {"user", f.User}, {"userName", f.UserName}, {"token", f.Token}} {
+		if kv[1] != "" {
+			l = append(l, kv[0]+"="+kv[1])
+		}
+	}
+	return "{" + strings.Join(l, ",") + "}"
 }
 
 func (o Op) String() string {
 	s := o.K
 	if o.X != "" {
 		s += "(" + o.X + ")"
+	}
+	if o.F != nil {
+		s += o.F.String()
 	}
 	if o.K == "createToken" {
 		var g []string
@@ -229,6 +256,59 @@ func reducedAlphabet() []Op {
 		{K: "updateOrg", X: "org2"}, {K: "deleteOrg", X: "org2"}, {K: "deleteOrg", X: "org1"},
 		{K: "createUser", X: "nu"}, {K: "deleteUser", X: "u2"}, {K: "createToken", X: "org1/u1", G: []int{0}}, {K: "deleteToken", X: "t1"},
 	}
+}
+
+// family C: every find-by-filter call with every combination of its filter fields over the fixture's entities
+// ("" = field absent), so that fields of one filter may point at different organizations / users / resources.
+func filterAlphabet(tokens bool) []Op {
+	var ops []Op
+	if !tokens {
+		bucketIDs, bucketNames := []string{"", "b1", "b2", "b3", "s1"}, []string{"", "b1", "b2", "b3", "_tasks"}
+		orgs, users := []string{"", "org1", "org2"}, []string{"", "u1", "u2"}
+		for _, id := range bucketIDs {
+			for _, n := range bucketNames {
+				for _, oid := range orgs {
+					for _, on := range orgs {
+						for _, k := range []string{"findBuckets", "findBucket"} {
+							ops = append(ops, Op{K: k, F: &Filt{ID: id, Name: n, Org: oid, OrgName: on}})
+						}
+					}
+				}
+			}
+		}
+		for _, id := range orgs {
+			for _, n := range orgs {
+				for _, u := range users {
+					for _, k := range []string{"findOrgs", "findOrg"} {
+						ops = append(ops, Op{K: k, F: &Filt{ID: id, Name: n, User: u}})
+					}
+				}
+			}
+		}
+		for _, id := range users {
+			for _, n := range users {
+				for _, k := range []string{"findUsers", "findUser"} {
+					ops = append(ops, Op{K: k, F: &Filt{ID: id, Name: n}})
+				}
+			}
+		}
+		return ops
+	}
+	toks, orgs, users := []string{"", "t1", "t2", "t3"}, []string{"", "org1", "org2"}, []string{"", "u1", "u2"}
+	for _, id := range toks {
+		for _, tk := range toks {
+			for _, uid := range users {
+				for _, un := range users {
+					for _, oid := range orgs {
+						for _, on := range orgs {
+							ops = append(ops, Op{K: "findTokens", F: &Filt{ID: id, Token: tk, User: uid, UserName: un, Org: oid, OrgName: on}})
+						}
+					}
+				}
+			}
+		}
+	}
+	return ops
 }
 
 func isMutation(o Op) bool { return !strings.HasPrefix(o.K, "find") }
@@ -563,6 +643,41 @@ type callResult struct {
 
 func pid(v uint64) platform.ID { return platform.ID(v) }
 
+func optID(name string) *platform.ID {
+	if name == "" {
+		return nil
+	}
+	i := pid(nameID[name])
+	return &i
+}
+
+func optStr(s string) *string {
+	if s == "" {
+		return nil
+	}
+	return &s
+}
+
+func bucketFilter(f *Filt) influxdb.BucketFilter {
+	return influxdb.BucketFilter{ID: optID(f.ID), Name: optStr(f.Name), OrganizationID: optID(f.Org), Org: optStr(f.OrgName)}
+}
+
+func orgFilter(f *Filt) influxdb.OrganizationFilter {
+	return influxdb.OrganizationFilter{ID: optID(f.ID), Name: optStr(f.Name), UserID: optID(f.User)}
+}
+
+func userFilter(f *Filt) influxdb.UserFilter {
+	return influxdb.UserFilter{ID: optID(f.ID), Name: optStr(f.Name)}
+}
+
+func tokenFilter(f *Filt) influxdb.AuthorizationFilter {
+	af := influxdb.AuthorizationFilter{ID: optID(f.ID), UserID: optID(f.User), User: optStr(f.UserName), OrgID: optID(f.Org), Org: optStr(f.OrgName)}
+	if f.Token != "" {
+		af.Token = optStr("tok-" + f.Token)
+	}
+	return af
+}
+
 // run executes one call as the caller and judges it. pre is the content before the call.
 func (w *world) run(via string, perms []P, o Op) callResult {
 	var set []req
@@ -651,7 +766,9 @@ func (w *world) run(via string, perms []P, o Op) callResult {
 			}
 		case "findBucket":
 			f := influxdb.BucketFilter{}
-			if n, ok := strings.CutPrefix(arg, "name="); ok {
+			if o.F != nil {
+				f = bucketFilter(o.F)
+			} else if n, ok := strings.CutPrefix(arg, "name="); ok {
 				f.Name = &n
 			} else {
 				on, bn, _ := strings.Cut(arg, "/")
@@ -663,7 +780,9 @@ func (w *world) run(via string, perms []P, o Op) callResult {
 			}
 		case "findBuckets":
 			f := influxdb.BucketFilter{}
-			if n, ok := strings.CutPrefix(arg, "orgname="); ok {
+			if o.F != nil {
+				f = bucketFilter(o.F)
+			} else if n, ok := strings.CutPrefix(arg, "orgname="); ok {
 				f.Org = &n
 			} else if arg != "" {
 				f.OrganizationID = idp(nameID[arg])
@@ -680,13 +799,19 @@ func (w *world) run(via string, perms []P, o Op) callResult {
 			}
 		case "findOrg":
 			n, _ := strings.CutPrefix(arg, "name=")
+			f := influxdb.OrganizationFilter{Name: &n}
+			if o.F != nil {
+				f = orgFilter(o.F)
+			}
 			var r *influxdb.Organization
-			if r, err = svc.org.FindOrganization(ctx, influxdb.OrganizationFilter{Name: &n}); err == nil && r != nil {
+			if r, err = svc.org.FindOrganization(ctx, f); err == nil && r != nil {
 				checkRet("org", uint64(r.ID), mayReadOrg)
 			}
 		case "findOrgs":
 			f := influxdb.OrganizationFilter{}
-			if n, ok := strings.CutPrefix(arg, "user="); ok {
+			if o.F != nil {
+				f = orgFilter(o.F)
+			} else if n, ok := strings.CutPrefix(arg, "user="); ok {
 				f.UserID = idp(nameID[n])
 			}
 			var rs []*influxdb.Organization
@@ -701,13 +826,21 @@ func (w *world) run(via string, perms []P, o Op) callResult {
 			}
 		case "findUser":
 			n, _ := strings.CutPrefix(arg, "name=")
+			f := influxdb.UserFilter{Name: &n}
+			if o.F != nil {
+				f = userFilter(o.F)
+			}
 			var r *influxdb.User
-			if r, err = svc.usr.FindUser(ctx, influxdb.UserFilter{Name: &n}); err == nil && r != nil {
+			if r, err = svc.usr.FindUser(ctx, f); err == nil && r != nil {
 				checkRet("user", uint64(r.ID), mayReadUser)
 			}
 		case "findUsers":
+			f := influxdb.UserFilter{}
+			if o.F != nil {
+				f = userFilter(o.F)
+			}
 			var rs []*influxdb.User
-			rs, _, err = svc.usr.FindUsers(ctx, influxdb.UserFilter{})
+			rs, _, err = svc.usr.FindUsers(ctx, f)
 			for _, r := range rs {
 				checkRet("user", uint64(r.ID), mayReadUser)
 			}
@@ -723,7 +856,9 @@ func (w *world) run(via string, perms []P, o Op) callResult {
 			}
 		case "findTokens":
 			f := influxdb.AuthorizationFilter{}
-			if n, ok := strings.CutPrefix(arg, "user="); ok {
+			if o.F != nil {
+				f = tokenFilter(o.F)
+			} else if n, ok := strings.CutPrefix(arg, "user="); ok {
 				f.UserID = idp(nameID[n])
 			} else if n, ok := strings.CutPrefix(arg, "org="); ok {
 				f.OrgID = idp(nameID[n])
@@ -925,7 +1060,10 @@ func TestCheck(t *testing.T) {
 			"(authorizer.* and tenant.Authed*/authorization.AuthedAuthorizationService). Family A: every subset of size <= 2 (thorough: <= 3) of a 23-permission basis (read/write x org-scoped / id-scoped / type-wide " +
 			"permissions on buckets, orgs, users, authorizations, plus instance) x every single call of the full alphabet (59 calls: find-by-id/name/filter/list, create, update, delete on buckets, orgs, users, tokens; " +
 			"token create with every subset of 3 grantable permissions); thorough adds every ordered pair (mutating call, any call) for the subsets of size <= 1. Family B: all 64 subsets of the basis read/write x " +
-			"{buckets of org1, bucket b1, org2} x every sequence of <= 2 (thorough: <= 3) calls of a 23-call alphabet. Oracle = the C28 rule transcribed, applied to the raw kv content: every returned resource must be readable, " +
+			"{buckets of org1, bucket b1, org2} x every sequence of <= 2 (thorough: <= 3) calls of a 23-call alphabet. Family C (filter products): every single find-by-filter call with EVERY combination of its filter fields " +
+			"over the fixture's entities, each field absent or naming any entity, so the fields of one filter may point at different organizations/users/resources: FindBucket(s) ID{b1,b2,b3,_tasks} x Name{b1,b2,b3,_tasks} x OrganizationID{org1,org2} x Org{org1,org2} " +
+			"(2 x 225 filters), FindOrganization(s) ID x Name x UserID (2 x 27), FindUser(s) ID x Name (2 x 9), FindAuthorizations ID{t1,t2,t3} x Token x UserID x User x OrgID x Org (1296) x every caller set of size <= 1 of the 23-permission basis; " +
+			"the bucket/org/user filters additionally x every pair of the 12 read permissions of the basis (thorough: all filters x every set of size <= 2 of the basis). Oracle = the C28 rule transcribed, applied to the raw kv content: every returned resource must be readable, " +
 			"a mutation the caller may not perform on its target (for token create: may not create in the org or does not hold a granted permission) must fail, and after a denied (unauthorized/forbidden) or unpermitted " +
 			"call the dump of the whole kv store is byte-identical; non-trivial = cases in which the reference allows at least one call (a resource is returned or a mutation is permitted); cases are distinct by construction",
 		Assumptions: []string{
@@ -971,6 +1109,45 @@ func TestCheck(t *testing.T) {
 					if c.Expired() {
 						c.Cap("family A singles not finished")
 						return
+					}
+				}
+			}
+			// family C: filter-field products (read-only single calls). Caller sets: every set of size <= 1 of the basis;
+			// quick adds every pair of READ permissions for the bucket/org/user filters, thorough every pair of the basis
+			// for all filters.
+			var readBasis []P
+			for _, p := range basis {
+				if p.A == "read" {
+					readBasis = append(readBasis, p)
+				}
+			}
+			setsC, kTok := smallSubsets(basis, 1), 1
+			if c.Thorough() {
+				setsC, kTok = smallSubsets(basis, 2), 2
+			} else {
+				for _, ps := range smallSubsets(readBasis, 2) {
+					if len(ps) == 2 {
+						setsC = append(setsC, ps)
+					}
+				}
+			}
+			for _, part := range []struct {
+				ops  []Op
+				sets [][]P
+				what string
+			}{
+				{filterAlphabet(false), setsC, "family C bucket/org/user filters not finished"},
+				{filterAlphabet(true), smallSubsets(basis, kTok), "family C token filters not finished"},
+			} {
+				for _, via := range vias {
+					for _, ps := range part.sets {
+						for _, o := range part.ops {
+							do(Case{via, ps, []Op{o}})
+						}
+						if c.Expired() {
+							c.Cap(part.what)
+							return
+						}
 					}
 				}
 			}
